@@ -97,6 +97,7 @@ class Sub:
     shardable: bool = True  # exhaustive subs run on shard 0 only unless they shard themselves
     machine: Callable[[Callable[[Any], None]], Any] | None = None  # stateful generator
     sample_ok: Callable[[Any], bool] = lambda case: True
+    fuzz_runs: int = 0  # thorough tier: inputs per coverage-guided worker (vlib/fuzz.py); 0 = no such stage
 
 
 def canon(case: Any) -> str:
